@@ -666,4 +666,26 @@ theorem opTable_bisect_calls (cfg : Cfg) (s : Seq) (lo hi : Nat) (v : Cell) :
     compareBisect cfg s lo hi .gt (.scalar v) = (myBisectRight cfg s v lo hi).map (fun h => [(h, hi)]) :=
   opTable_bisect_calls' cfg s lo hi v
 
+
+/-! ## Phase 4 (continued): the comparison `sorted()` and the bisection use -/
+
+/-- **mixed-class TypeError, exactly**: Python's `a < b` on cells raises iff neither side is `Missing` and the
+two are not both numbers (int / float together) or both strings (`None` is comparable with nothing, not even itself) -/
+theorem pyLt_raises_iff (a b : Cell) :
+    pyLt a b = .error .typeError ↔
+      (a.key ≠ .missing ∧ b.key ≠ .missing ∧ ¬ (a.key.rank = b.key.rank ∧ a.key.rank ≤ 1)) :=
+  pyLt_raises_iff' a b
+
+/-- **on each comparable class `<` never raises and is a strict total preorder up to `==`**: irreflexive, transitive,
+and two cells neither of which is smaller than the other are `==` -/
+theorem pyLt_class_order (a b c : Cell) (hab : a.key.rank = b.key.rank) (hbc : b.key.rank = c.key.rank) (hcl : a.key.rank ≤ 1) :
+    pyLt a a = .ok false ∧
+    (pyLt a b = .ok true → pyLt b c = .ok true → pyLt a c = .ok true) ∧
+    (pyLt a b = .ok false → pyLt b a = .ok false → pyEq a b = true) ∧
+    (∃ r, pyLt a b = .ok r) :=
+  pyLt_class_order' a b c hab hbc hcl
+
+/-- the hypotheses are met by `1`, `1.0`, `2` (one class) -/
+example : (Cell.int 1).key.rank = (Cell.flt 1).key.rank ∧ (Cell.flt 1).key.rank = (Cell.int 2).key.rank ∧ (Cell.int 1).key.rank ≤ 1 := by decide
+
 end Coba.C17
